@@ -1420,7 +1420,7 @@ def known_witnesses():
             ["new_space", "-", "Ysp", []], ["cells", "Ysp", "foo", 1], ["new_space", "Ysp", "Ch", []],
             ["set_ref", "Ysp.Ch", "rr", ("obj", "Ysp.foo"), "auto"], ["new_space", "-", "Xsp", ["Ysp"]],
             ["new_space", "Xsp", "Ch", ["Ysp.Ch"]], ["remove_bases", "Xsp", ["Ysp"]]]),
-        ("known-change-ref-relative-unchecked", [
+        ("fixed-change-ref-relative-unchecked", [
             ["new_space", "-", "Base", []], ["new_space", "-", "Sub", []], ["new_space", "Base", "Gr", []],
             ["set_ref", "Base.Gr", "rc", ("obj", "Sub"), "absolute"], ["params", "Base"],
             ["new_space", "Base", "Kid", ["Base.Gr"]], ["cells", "Base", "baz", 2],
